@@ -121,6 +121,10 @@ class C15(World):
              "transform": (mx.make(rng, rng.choice(["identity", "identity", "translation", "rigid", "rigid"]))).tolist()}
         if kind == "Extrusion" and rng.random() < 0.25:
             m["height"] = -m["height"]  # an extrusion may run against its axis
+        if kind != "Extrusion" and rng.random() < 0.08:
+            # the same shapes a few tenths of a millimetre across, modelled in metres: every valid size is a valid size
+            k_ = rng.choice([1e-3, 1e-4])
+            m["radius"], m["height"], m["extents"] = m["radius"] * k_, m["height"] * k_, [e * k_ for e in m["extents"]]
         ops = [{"op": "build", "model": m, "mutable": rng.random() < 0.9, "rs": rng.randrange(2**31)}]
         for _ in range(cfg["n_ops"]):
             k = pick(rng, cfg["weights"])
